@@ -67,8 +67,8 @@ Section Walk.
   Definition has_marker_file (files : list string) : bool := existsb is_marker files.
 
   (* `top` is the test root == self.path.  The inner fix plays the role of os.walk's
-     descent into what is left of `dirs`: `skip` = the first marker-named directory has
-     been taken out by dirs.remove(dir_) (only the first: the loop breaks);
+     descent into what is left of `dirs`: `skip` = every marker-named directory has been
+     taken out (dirs[:] = [d for d in dirs if d not in self.marker_files]);
      a valid project root additionally drops its test directories. *)
   Fixpoint walk (top : bool) (path : string) (t : tree) {struct t} : list entry :=
     match t with
@@ -84,7 +84,7 @@ Section Walk.
            match ds with
            | [] => []
            | d :: r =>
-             if skip && is_marker (tname d) then go r false
+             if skip && is_marker (tname d) then go r skip
              else ((if valid && is_test_dir (tname d) then []
                    else walk false (path ++ "/" ++ tname d) d) ++ go r skip)%list
            end) subs (negb excl0 && mdir))%list
@@ -96,13 +96,13 @@ End Walk.
 (* ---- the two analysis passes ---------------------------------------------------------- *)
 
 (* what req_compile.metadata.extract_metadata does with a directory: a container (AOk), a
-   MetadataError (AFail; caught: the project is skipped), another Exception (ACrash;
-   propagates out of the constructor) or a BaseException that is not an Exception (AExit:
-   SystemExit raised by a build backend; in the main thread it propagates like any other,
-   in a ThreadPool worker it kills the worker, whose result then never arrives) *)
+   MetadataError (AFail; caught: the project is skipped), a SystemExit raised by a build
+   backend (AExit; caught and skipped like a MetadataError) or any other exception (ACrash;
+   propagates out of the constructor, from the main thread directly, from a pool worker
+   when its result is consumed) *)
 Inductive outcome := AOk | AFail | ACrash | AExit.
 
-Inductive collected := Offered (dirs : list string) | Raised | DequeMutated | Hangs.
+Inductive collected := Offered (dirs : list string) | Raised | DequeMutated.
 
 Section Collect.
   Variable analyse : string -> outcome.
@@ -110,27 +110,24 @@ Section Collect.
   Definition deferred (e : entry) : bool := nameb (snd e) defer_file.
   Definition is_ok (e : entry) : bool := match analyse (fst e) with AOk => true | _ => false end.
   Definition is_crash (e : entry) : bool := match analyse (fst e) with ACrash => true | _ => false end.
-  Definition is_exit (e : entry) : bool := match analyse (fst e) with AExit => true | _ => false end.
 
   (* for source_dir, result in map(...): if result is not None: _add_distribution
-     (main thread, in order; any exception leaves the constructor) *)
+     (main thread, in order; an uncaught exception leaves the constructor) *)
   Fixpoint adds (ds : list entry) : option (list string) :=
     match ds with
     | [] => Some []
     | d :: r =>
       match analyse (fst d) with
-      | ACrash | AExit => None
-      | AFail => adds r
+      | ACrash => None
+      | AFail | AExit => adds r
       | AOk => match adds r with Some l => Some (fst d :: l) | None => None end
       end
     end.
 
   (* the same loop over pool.imap_unordered: results are consumed in the order tau; an
-     Exception result is re-raised when it is reached; a worker killed by a BaseException
-     delivers nothing, so once every other result has been consumed the loop waits for ever *)
+     exception result is re-raised when it is reached *)
   Definition adds_threaded (ds : list entry) : collected :=
     if existsb is_crash ds then Raised
-    else if existsb is_exit ds then Hangs
     else Offered (map fst (filter is_ok ds)).
 
   (* sigma: the order in which _extract_metadata(False, d) is executed (it fixes the order
